@@ -434,6 +434,26 @@ def u_c16():
     return u.finish()
 
 
+def u_exp(now):
+    """run-time universe: NIP-40 expiration tags that run out DURING the history (now+2 s), created_at values around the
+    wall clock.  The store has no notion of expiry or of the wall clock, so every listed property must hold across the
+    moment the tags run out."""
+    u = Universe("exp%d" % now)
+    A, B = 1, 2
+    soon = str(now + 2)
+    u.add(A, 1, now - 50, [["expiration", soon]], clen=10)                       # 1 regular, expires soon
+    u.add(A, 30000, now - 40, [["d", "x"], ["expiration", soon]], clen=10)       # 2 addressable, expires soon
+    u.add(A, 1, now - 60, [["t", "x"]], clen=10)                                 # 3 plain target
+    u.add(A, 5, now - 30, [["e", ("ev", 3)], ["expiration", soon]], clen=0)      # 4 deletion request that itself expires
+    u.add(A, 10000, now - 20, [["expiration", soon]], clen=10)                   # 5 replaceable, expires soon
+    u.add(A, 30000, now - 45, [["d", "x"]], clen=10)                             # 6 older at the address of 2
+    u.add(B, 1, now - 10, [["t", "x"], ["expiration", soon]], clen=10)           # 7 other author
+    u.add(B, 1, now + 1, [["t", "x"]], clen=10)                                  # 8 created_at one second ahead of the clock
+    u.add(A, 62, now - 5, [["relay", "ALL_RELAYS"], ["expiration", soon]], clen=0)  # 9 vanish request that expires
+    u.add(A, 1, now - 1, [["expiration", str(now - 1)]], clen=10)                # 10 expired a moment ago
+    return u.finish()
+
+
 CURATED = dict(c16=u_c16, c11b=u_c11b, c12x=u_c12x, c09b=u_c09b, c10b=u_c10b, sz=u_sz, core=u_core, c09=u_c09, c10=u_c10, c11=u_c11, c18=u_c18, q=u_q)
 
 
